@@ -117,6 +117,31 @@ def tar_cases(tier):
         cases.append(("tar", "pax header size %d" % sz, tarmk.header(b"pax/h", size=sz, typeflag=b"x") + tarmk.pad(good) + tail))
         cases.append(("tar", "gnu L size %d" % sz, tarmk.header(b"././@LongLink", size=sz, typeflag=b"L", magic=b"ustar  \0") + tarmk.pad(b"name\0") + tail))
         cases.append(("tar", "gnu K size %d" % sz, tarmk.header(b"././@LongLink", size=sz, typeflag=b"K", magic=b"ustar  \0") + tarmk.pad(b"name\0") + tail))
+    # every sequence of <= 3 (thorough 4) PAX records of one extended header over the alphabet of keys the reader knows: the handlers share
+    # per-header state (sparse list, set-by-pax mask, name/target ownership), so what matters is which key follows which
+    KEYS = [(b"path", b"p/q"), (b"linkpath", b"t"), (b"size", b"3"), (b"uid", b"5"), (b"gid", b"6"), (b"mtime", b"1.5"), (b"atime", b"1"),
+            (b"GNU.sparse.size", b"100"), (b"GNU.sparse.numblocks", b"1"), (b"GNU.sparse.offset", b"0"), (b"GNU.sparse.numbytes", b"3"),
+            (b"GNU.sparse.map", b"0,3"), (b"GNU.sparse.name", b"sp"), (b"GNU.sparse.major", b"1"), (b"GNU.sparse.minor", b"0"), (b"GNU.sparse.realsize", b"100"),
+            (b"SCHILY.xattr.user.a", b"v"), (b"LIBARCHIVE.xattr.user.b", b"dg=="), (b"comment", b"c")]
+    ftail = tarmk.header(b"f", size=3, typeflag=b"0") + tarmk.pad(b"abc") + tarmk.header(b"z", size=1, typeflag=b"0") + tarmk.pad(b"z") + bytes(1024)
+    for n in range(1, (3 if quick else 4) + 1):
+        for seq in itertools.product(range(len(KEYS)), repeat=n):
+            cases.append(("tar", "pax keys " + ",".join(KEYS[i][0].decode() for i in seq), tarmk.pax_header([KEYS[i] for i in seq]) + ftail))
+    # every sequence of <= 3 meta records (GNU long name / long link, PAX extended and global headers) in front of one entry of each kind
+    gnu = b"ustar  \0"
+    META = [("L", tarmk.header(b"././@LongLink", size=10, typeflag=b"L", magic=gnu) + tarmk.pad(b"long/name\0")),
+            ("K", tarmk.header(b"././@LongLink", size=7, typeflag=b"K", magic=gnu) + tarmk.pad(b"target\0")),
+            ("x:path", tarmk.pax_header([(b"path", b"pax/name")])), ("x:linkpath", tarmk.pax_header([(b"linkpath", b"paxtarget")])),
+            ("x:size", tarmk.pax_header([(b"size", b"3")])), ("x:mtime", tarmk.pax_header([(b"mtime", b"77")])),
+            ("x:sparse", tarmk.pax_header([(b"GNU.sparse.size", b"9"), (b"GNU.sparse.numblocks", b"1"), (b"GNU.sparse.offset", b"0"), (b"GNU.sparse.numbytes", b"3")])),
+            ("g:comment", tarmk.pax_header([(b"comment", b"c")], typeflag=b"g"))]
+    FINAL = [("file", tarmk.header(b"f", size=3, typeflag=b"0") + tarmk.pad(b"abc")), ("slink", tarmk.header(b"s", typeflag=b"2", linkname=b"f")),
+             ("dir", tarmk.header(b"d/", mode=0o755, typeflag=b"5"))]
+    for n in range(1, 4):
+        for seq in itertools.product(range(len(META)), repeat=n):
+            for fname, fin in FINAL:
+                cases.append(("tar", "meta records %s then %s" % ("+".join(META[i][0] for i in seq), fname),
+                              b"".join(META[i][1] for i in seq) + fin + tarmk.header(b"z", size=1, typeflag=b"0") + tarmk.pad(b"z") + bytes(1024)))
     # GNU 1.0 sparse maps
     for m in (b"", b"0\n", b"1\n", b"1\n0\n", b"65536\n", b"65537\n1\n1\n", b"10000000000000000000\n", b"2\n0\n5\n3\n5\n", b"2\n10\n5\n0\n5\n", b"1\n18446744073709551615\n2\n", b"1\nx\n1\n",
               b"3\n" + b"1\n" * 3, b"1" * 600 + b"\n"):
